@@ -10,8 +10,21 @@ def run(ctx):
     ctx.extra["rule"] = ("op sequences on BumpBox<[T]>, FixedBumpVec, BumpVec, MutBumpVec (sized id-carrying and zero-sized elements, "
                          "4 arena configurations); every callback-bearing op is re-run from the same state with a panic at each callback index "
                          "and with each dropped value panicking in Drop; distinct_nontrivial counts distinct op lines replayed on the model")
+    ctx.partial += [
+        "modelled + proved (every vector, argument, oracle, set of panicking Drops): retain, dedup_by, truncate, clear, pop, pop_if, remove, "
+        "swap_remove, push, insert, extend_from_slice_clone, resize, resize_with, append, drain(+keep_rest), extract_if, into_iter, map_in_place, "
+        "drop of the owner; MutBumpVecRev: push, pop, clear, truncate, insert, remove, swap_remove, extend_from_slice_clone, resize, append, into_iter, drop; "
+        "partition (in Props/C16)",
+        "NOT modelled (checked on the real types by the exactly-once accounting oracle only, incl. a panic at every callback index): splice, "
+        "dedup_by_key, extend_from_within_clone, BumpVec::map, into_flattened, reserve/reserve_exact/shrink_to_fit; MutBumpVecRev::{pop_if, resize_with}",
+        "zero-sized element types: counting oracle on the implementation only (the slot model identifies values by id)",
+        "BumpBox<T> single-value routes (into_inner, leak, into_ref/into_mut) are not modelled",
+    ]
     proved = prove(ctx, MODULES)
-    run_coll(ctx, 700 if q else 20000, 12, "drops", oracle_props=["C06"])
+    run_coll(ctx, 700 if q else 100000, 12, "drops", oracle_props=["C06"])
+    if not q:
+        run_coll(ctx, 6000, 14, "deep", oracle_props=["C06"], seed_offset=7, label="deep(every panic index, every dropped value as bomb)")
+        run_coll(ctx, 2, 1, "split", oracle_props=["C06"], seed_offset=3, label="split(parts dropped in both orders)")
     if (not proved or ctx.disagreements) and not ctx.oracle_failures and q:
         ctx.notes.append("proof/correspondence broken: running the thorough-tier search for a failing input")
         run_coll(ctx, 3000, 14, "deep", oracle_props=["C06"], seed_offset=1000, label="deep-search")
